@@ -327,9 +327,14 @@ func run(c Case) kit.Outcome {
 		byID[e.ID] = append(byID[e.ID], e)
 	}
 	ok := 0
+	var timedOut *issued
 	for _, is := range all {
 		if is.err == errTimeout {
-			return kit.Undecided("call %d (%s, %d bytes) did not complete within %v in a fault-free run", is.id, is.spec.Form, is.spec.Size, bound)
+			// judged after the completed calls: a wrong reply elsewhere in the case is still reported
+			if timedOut == nil {
+				timedOut = is
+			}
+			continue
 		}
 		if is.err != nil {
 			unexpectedErrs++
@@ -351,6 +356,9 @@ func run(c Case) kit.Outcome {
 				return kit.Fail("handler-saw-other-args", "the handler of call %d received arguments that differ from what the caller sent (%d bytes logged, %d sent)", is.id, ex[0].ArgsLen, len(is.args))
 			}
 		}
+	}
+	if timedOut != nil {
+		return kit.Undecided("call %d (%s, %d bytes) did not complete within %v in a fault-free run", timedOut.id, timedOut.spec.Form, timedOut.spec.Size, bound)
 	}
 	out := kit.Outcome{Counters: map[string]int{"calls": len(all), "ok": ok, "unexpected_errors": unexpectedErrs}}
 	if maxOutstanding >= 2 && ok >= 2 && (permuted || smallChunk || big) {
